@@ -14,18 +14,24 @@ Recognised (anything else becomes `.unknown`, which no reference term contains, 
 * `content_from_reader`: `if content_type is None: content_type = UTF8_TEXT`; `if buffer_now: contents = list(reader())` + a local
   `def reader(): return contents` (also a lambda); `return Content(content_type, reader)`.
 * `_iter_chunks`: `if seek_offset is not None: stream.seek(seek_offset, seek_whence)`; `chunk = stream.read(chunk_size)`; `while chunk:`
-  with body steps `yield chunk` / `chunk = stream.read(chunk_size)`.
-* `__repr__`: `if self.parameters: params = <lead>; params += <sep>.join(sorted(<fmt>.format(k, self._quote(v)) for k, v in
-  self.parameters.items()))` (also as one expression `<lead> + <sep>.join(...)`) `else: params = ""`; `return f"{self.type}/{self.subtype}{params}"`;
+  with body steps `yield chunk` / `chunk = stream.read(chunk_size)`; or the rotated loop `while True:` with body steps `chunk = stream.read(chunk_size)` /
+  `if not chunk: break` / `yield chunk` (transcribed as it stands; that it means the same is proved in Lean: `chunksI_refRotated`).
+* `__repr__`: `if self.parameters: params = <lead>; params += <sep>.join(sorted(<item> for k, v in self.parameters.items()))` (also as one
+  expression `<lead> + <sep>.join(...)`) `else: params = ""`; `return <result>`, where `<item>` and `<result>` are strings assembled from literal
+  text and values by `str.format` with `{}` fields, an f-string, or `%` with `%s` fields (no format specs) - only WHAT is concatenated counts;
   `_quote`: `return str(value).replace(c1, r1).replace(c2, r2)…` with single-character patterns.
-* the work-around: `if "<key>" in parameters: if "<c>" in parameters["<key>"]: parameters["<key>"] = parameters["<key>"][: parameters["<key>"].find("<c>")]`;
+* the work-around: `if "<key>" in parameters: if "<c>" in parameters["<key>"]: parameters["<key>"] = parameters["<key>"][: parameters["<key>"].find("<c>")]`
+  (the two tests may be joined by `and`; the cut may be spelled `.split(c)[0]` / `.partition(c)[0]`; the value may be read through a local alias);
   a loop over all parameters in its place is `.everyParam` (seed C09-d).
-Local names are taken from the source (renaming is harmless).
+Local names are taken from the source (renaming is harmless); the function bodies are first normalised by harness/pynorm.py (temporaries and
+effect-free aliases inlined, `while (x := e)` unfolded, `[x for x in e]` = `list(e)`, …).
 Trusted: this recogniser and that `TTV.ContentSkel.*I` read these forms as Python does.
 """
 import ast, os
 from harness.pydeferred2lean import find, body_of
 from harness.pysuite2lean import nocomment, u
+from harness import pynorm
+from harness.pynorm import canon
 
 
 def text(s):
@@ -58,7 +64,8 @@ def iter_text(fn):
                 and [u(y) for y in nocomment(s.body)] == ['yield %s.decode(%s)' % (dec, s.target.id)]:
             steps.append('.forChunksYieldDecode')
             continue
-        if fin and isinstance(s, ast.If) and not s.orelse and u(s.test) == fin and [u(y) for y in nocomment(s.body)] == ['yield ' + fin]:
+        if fin and isinstance(s, ast.If) and not s.orelse and u(s.test) in (fin, 'len(%s) > 0' % fin, 'len(%s) != 0' % fin, "%s != ''" % fin) \
+                and [u(y) for y in nocomment(s.body)] == ['yield ' + fin]:
             steps.append('.yieldFinalIfNonEmpty')
             continue
         steps.append('.unknown')
@@ -72,7 +79,18 @@ def content_from_reader(fn):
         return '[.unknown]'
     reader, ctype, bnow = ps
     steps = []
-    for s in body_of(fn):
+    stmts = body_of(fn)
+    # the same decision written with an early return for the lazy case:
+    #   if not buffer_now: return Content(ct, reader);  contents = list(reader());  return Content(ct, <function returning contents>)
+    for k, s in enumerate(stmts):
+        if isinstance(s, ast.If) and not s.orelse and u(s.test) == 'not ' + bnow and [u(y) for y in nocomment(s.body)] == ['return Content(%s, %s)' % (ctype, reader)] \
+                and len(stmts) == k + 3 and isinstance(stmts[k + 1], ast.Assign) and isinstance(stmts[k + 1].targets[0], ast.Name):
+            c = stmts[k + 1].targets[0].id
+            if u(stmts[k + 1].value) == 'list(%s())' % reader and canon(stmts[k + 2]) == canon('return Content(%s, lambda: %s)' % (ctype, c)):
+                stmts = stmts[:k] + [ast.parse('if %s:\n    %s = list(%s())\n    %s = lambda: %s' % (bnow, c, reader, reader, c)).body[0],
+                                     ast.parse('return Content(%s, %s)' % (ctype, reader)).body[0]]
+                break
+    for s in stmts:
         if isinstance(s, ast.If) and not s.orelse and u(s.test) == '%s is None' % ctype and [u(y) for y in nocomment(s.body)] == ['%s = UTF8_TEXT' % ctype]:
             steps.append('.defaultType')
             continue
@@ -122,6 +140,21 @@ def iter_chunks(fn):
                 else:
                     body.append('.unknown')
             continue
+        # the rotated loop: while True: chunk = stream.read(size); if not chunk: break; yield chunk   (its meaning is given - and proved
+        # equal to the other shape - on the Lean side, the translator only transcribes the statements)
+        if chunk is None and isinstance(s, ast.While) and not s.orelse and u(s.test) in ('True', '1') and k == len(b) - 1:
+            pre.append('.whileTrue')
+            for y in nocomment(s.body):
+                if isinstance(y, ast.Assign) and isinstance(y.targets[0], ast.Name) and u(y.value) == '%s.read(%s)' % (stream, size) and chunk in (None, y.targets[0].id):
+                    chunk = y.targets[0].id
+                    body.append('.read')
+                elif chunk and isinstance(y, ast.If) and not y.orelse and u(y.test) == 'not ' + chunk and [u(z) for z in nocomment(y.body)] == ['break']:
+                    body.append('.breakIfEmpty')
+                elif chunk and u(y) == 'yield ' + chunk:
+                    body.append('.yieldChunk')
+                else:
+                    body.append('.unknown')
+            continue
         pre.append('.unknown')
     return '{ pre := [%s], body := [%s] }' % (', '.join(pre), ', '.join(body))
 
@@ -146,19 +179,49 @@ def quote_fn(fn):
     return list(reversed(reps))
 
 
-def fmt_pieces(fmt, args, key, val, quote_name):
-    """'{}="{}"'.format(k, self._quote(v)) -> pieces"""
-    parts = fmt.split('{}')
-    if len(parts) != len(args) + 1:
+def template(e):
+    """a string built from literal text and values - `'..{}..'.format(a, b)`, an f-string, `'..%s..' % (a, b)` - as a list of
+    ('lit', text) / ('arg', expression); None if it is none of these (no format specs, conversions or named fields)"""
+    if isinstance(e, ast.Call) and isinstance(e.func, ast.Attribute) and e.func.attr == 'format' and isinstance(e.func.value, ast.Constant) \
+            and isinstance(e.func.value.value, str) and not e.keywords:
+        parts = e.func.value.value.split('{}')
+        if len(parts) != len(e.args) + 1 or any('{' in p or '}' in p for p in parts):
+            return None
+        out = []
+        for i, p in enumerate(parts):
+            out.append(('lit', p))
+            if i < len(e.args):
+                out.append(('arg', e.args[i]))
+        return [x for x in out if x != ('lit', '')]
+    if isinstance(e, ast.JoinedStr):
+        out = []
+        for v in e.values:
+            if isinstance(v, ast.Constant) and isinstance(v.value, str):
+                out.append(('lit', v.value))
+            elif isinstance(v, ast.FormattedValue) and v.format_spec is None and v.conversion == -1:
+                out.append(('arg', v.value))
+            else:
+                return None
+        return out
+    if isinstance(e, ast.BinOp) and isinstance(e.op, ast.Mod) and isinstance(e.left, ast.Constant) and isinstance(e.left.value, str):
+        args = list(e.right.elts) if isinstance(e.right, ast.Tuple) else [e.right]
+        parts = e.left.value.split('%s')
+        if len(parts) != len(args) + 1 or any('%' in p for p in parts):
+            return None
+        out = []
+        for i, p in enumerate(parts):
+            out.append(('lit', p))
+            if i < len(args):
+                out.append(('arg', args[i]))
+        return [x for x in out if x != ('lit', '')]
+    return None
+
+
+def pieces(tpl, names):
+    """template -> Lean pieces; `names` maps the source text of a value to its piece"""
+    if tpl is None:
         return ['.unknown']
-    out = []
-    for i, p in enumerate(parts):
-        if p:
-            out.append('(.lit %s)' % text(p))
-        if i < len(args):
-            a = u(args[i])
-            out.append('.key' if a == key else '.quotedValue' if a == 'self.%s(%s)' % (quote_name, val) else '.rawValue' if a in (val, 'str(%s)' % val) else '.unknown')
-    return out
+    return ['(.lit %s)' % text(v) if k == 'lit' else names.get(u(v), '.unknown') for k, v in tpl]
 
 
 def repr_fn(cls):
@@ -195,22 +258,12 @@ def repr_fn(cls):
         g = inner.generators[0]
         if isinstance(g.target, ast.Tuple) and len(g.target.elts) == 2 and u(g.iter) == 'self.parameters.items()':
             key, val = u(g.target.elts[0]), u(g.target.elts[1])
-            e = inner.elt
-            if isinstance(e, ast.Call) and isinstance(e.func, ast.Attribute) and e.func.attr == 'format' and isinstance(e.func.value, ast.Constant) and not e.keywords:
-                for a in e.args:
-                    if isinstance(a, ast.Call) and u(a.func).startswith('self.') and len(a.args) == 1 and u(a.args[0]) == val:
-                        quote_name = u(a.func)[5:]
-                item = fmt_pieces(e.func.value.value, e.args, key, val, quote_name or '_quote')
-    result = ['.unknown']
-    if isinstance(ret.value, ast.JoinedStr):
-        result = []
-        for v in ret.value.values:
-            if isinstance(v, ast.Constant):
-                result.append('(.lit %s)' % text(v.value))
-            elif isinstance(v, ast.FormattedValue) and v.format_spec is None and v.conversion == -1:
-                result.append({'self.type': '.type', 'self.subtype': '.subtype', pname: '.params'}.get(u(v.value), '.unknown'))
-            else:
-                result.append('.unknown')
+            tpl = template(inner.elt)
+            for k, a in (tpl or []):
+                if k == 'arg' and isinstance(a, ast.Call) and u(a.func).startswith('self.') and len(a.args) == 1 and not a.keywords and u(a.args[0]) == val:
+                    quote_name = u(a.func)[5:]
+            item = pieces(tpl, {key: '.key', val: '.rawValue', 'str(%s)' % val: '.rawValue', 'self.%s(%s)' % (quote_name or '_quote', val): '.quotedValue'})
+    result = pieces(template(ret.value), {'self.type': '.type', 'self.subtype': '.subtype', pname: '.params'})
     reps = None
     if quote_name:
         try:
@@ -228,7 +281,7 @@ def charset_fix(fn):
     b = body_of(fn)
     if len(b) < 2 or not isinstance(b[-1], ast.Return) or not isinstance(b[-2], ast.If):
         return bad
-    ret, g = b[-1], b[-2]
+    ret, g = b[-1], pynorm.split_and(b[-2])              # `if A and B: S` is `if A: if B: S`
     if not (isinstance(ret.value, ast.Call) and u(ret.value.func) == 'ContentType' and len(ret.value.args) == 3):
         return bad
     params = u(ret.value.args[2])
@@ -247,7 +300,9 @@ def charset_fix(fn):
                 and u(t2.comparators[0].value) == params and isinstance(t2.comparators[0].slice, ast.Constant) and len(asg) == 1:
             key, c = t2.comparators[0].slice.value, t2.left.value
             cell = '%s[%r]' % (params, key)
-            if u(asg[0]) == '%s = %s[:%s.find(%r)]' % (cell, cell, cell, c):
+            # what precedes the first `c` (under `if c in v`): v[:v.find(c)], v.split(c)[0], v.split(c, 1)[0], v.partition(c)[0]
+            if u(asg[0]) in ['%s = %s' % (cell, rhs) for rhs in ('%s[:%s.find(%r)]' % (cell, cell, c), '%s.split(%r)[0]' % (cell, c),
+                                                               '%s.split(%r, 1)[0]' % (cell, c), '%s.partition(%r)[0]' % (cell, c))]:
                 scope, cut = '(.onlyKey %s)' % text(key), ord(c)
     elif len(inner) == 1 and isinstance(inner[0], ast.For) and u(inner[0].iter) == params + '.items()' and isinstance(inner[0].target, ast.Tuple):
         n, v = [u(e) for e in inner[0].target.elts]
